@@ -13,7 +13,7 @@ import ast
 from ..engine import rule, run_property
 TILE = 'mapproxy/cache/tile.py'
 from ..model import Undecided
-from ..cfg import dotted, call_name, is_call, simple_name, unparse, const_value, contains, enclosing, implied
+from ..cfg import same, same_args, dotted, call_name, is_call, simple_name, unparse, const_value, contains, enclosing, implied
 from ..flow import Defs, depends
 from ..decide import table, ret_kind, expr_table
 from ..util import keyword, returns_of, calls_in, inside, order_key
@@ -33,7 +33,7 @@ def fast_path_table(ctx, mg, g, ret_node):
         outer = enclosing(outer, ast.If)
     # start below the `len(self.layers) == 1` test if that is the outermost one
     body = outer.body if 'len(self.layers)' in unparse(outer.test) else [outer]
-    tab = ctx.rows(table(body, lambda n: 'fast' if isinstance(n, ast.Return) and unparse(n.value) == 'layer_img' else 'go'))
+    tab = ctx.rows(table(body, lambda n: 'fast' if isinstance(n, ast.Return) and same(n.value, 'layer_img') else 'go'))
     return st, tab
 
 
@@ -49,7 +49,7 @@ def _merge_fn(ctx):
 def c14a(ctx):
     mg = _merge_fn(ctx)
     g = mg.cfg
-    fast = g.find_stmts(lambda s: isinstance(s, ast.Return) and unparse(s.value) == 'layer_img')
+    fast = g.find_stmts(lambda s: isinstance(s, ast.Return) and same(s.value, 'layer_img'))
     if not fast:
         ctx.ok('LayerMerger.merge:no-fast-path', 'no single-layer fast path', mg)
         ctx.ok('LayerMerger.merge:no-fast-path-2', 'nothing to guard', mg)
@@ -102,7 +102,7 @@ def c14b(ctx):
     bad = []
     if ok:
         cobj = tab.atom_objs[a_cc[0]].expr
-        ok = is_call(cobj, 'self.coverage.contains') and unparse(cobj.args[0]) == 'query.bbox'
+        ok = is_call(cobj, 'self.coverage.contains') and same(cobj.args[0], 'query.bbox')
         for asg, out, _ in tab.assignments():
             if out != 'return True':
                 continue
@@ -192,7 +192,7 @@ def c14c(ctx):
               fail='requests to different upstream URLs can be combined')
     lay = [s for s in cc2.walk() if isinstance(s, ast.Assign) and unparse(s.targets[0]) == 'new_req.params.layers']
     ok = len(lay) == 1 and isinstance(lay[0].value, ast.BinOp) and isinstance(lay[0].value.op, ast.Add) and \
-        unparse(lay[0].value.left) == 'new_req.params.layers' and unparse(lay[0].value.right) == 'other.request_template.params.layers'
+        same(lay[0].value.left, 'new_req.params.layers') and same(lay[0].value.right, 'other.request_template.params.layers')
     ctx.check(ok, 'WMSClient.combined_client:layer-order', 'the combined LAYERS list is self then other (bottom layer first)', cc2,
               fail='the combined request lists the layers in the wrong order')
     cb = ctx.fn(WMS + ':combined_layers')
@@ -235,13 +235,13 @@ def c14c(ctx):
 def c14d(ctx):
     mg = _merge_fn(ctx)
     g = mg.cfg
-    loops = [s for s in mg.walk() if isinstance(s, ast.For) and unparse(s.iter) == 'self.layers']
+    loops = [s for s in mg.walk() if isinstance(s, ast.For) and same(s.iter, 'self.layers')]
     ok = len(loops) == 1
     ctx.check(ok, 'LayerMerger.merge:list-order', 'layers are composed by a plain loop over self.layers (insertion order)', mg,
               fail='the composition loop does not iterate self.layers in order')
     defs = Defs(mg.node)
     res = sorted([v for v, sel in defs.of('result') if sel is None], key=order_key)
-    ok = bool(res) and is_call(res[0], 'create_image') and [unparse(a) for a in res[0].args[:2]] == ['size', 'image_opts']
+    ok = bool(res) and is_call(res[0], 'create_image') and same_args(res[0].args[:2], ['size', 'image_opts'])
     first = sorted([s for s in mg.walk() if isinstance(s, ast.Assign) and unparse(s.targets[0]) == 'result'], key=order_key)
     ok = ok and bool(loops) and first[0].lineno < loops[0].lineno
     ctx.check(ok, 'LayerMerger.merge:background-first', 'composition starts from create_image(size, image_opts) (background)', mg)
@@ -253,12 +253,12 @@ def c14d(ctx):
         gg = f.cfg
         adds = gg.find(lambda x: is_call(x, 'layer_merger.add') and len(x.args) >= 2)
         lp = [s for s in f.walk() if isinstance(s, ast.For) and is_call(s.iter, 'imap')]
-        ok = len(adds) == 1 and len(lp) == 1 and inside(adds[0][1], lp[0]) and unparse(lp[0].iter.args[1]) == 'render_layers'
+        ok = len(adds) == 1 and len(lp) == 1 and inside(adds[0][1], lp[0]) and same(lp[0].iter.args[1], 'render_layers')
         ctx.check(ok, 'LayerRenderer.%s:adds-in-order' % m, 'each rendered layer image is added inside the in-order loop over render_layers', f,
                   fail='%s does not add every rendered layer image to the merger in order' % m)
     rn = ctx.fn(WMS + ':LayerRenderer.render')
     ok = any(isinstance(s, ast.Assign) and unparse(s.targets[0]) == 'render_layers' and is_call(s.value, 'combined_layers') and
-             unparse(s.value.args[0]) == 'self.layers' for s in rn.walk())
+             same(s.value.args[0], 'self.layers') for s in rn.walk())
     ctx.check(ok, 'LayerRenderer.render:combined-in-order', 'the render list is combined_layers(self.layers, query)', rn)
 
 
@@ -302,12 +302,12 @@ def c14f(ctx):
                    'shortcut hands it out without background')
     im = ctx.fn('mapproxy/layer.py:CacheMapLayer._image')
     g = im.cfg
-    rets = g.find_stmts(lambda s: isinstance(s, ast.Return) and g.guarded(g.node_of[id(s)], lambda at: at.op is None and unparse(at.expr) == 'query.tiled_only', True))
+    rets = g.find_stmts(lambda s: isinstance(s, ast.Return) and g.guarded(g.node_of[id(s)], lambda at: at.op is None and same(at.expr, 'query.tiled_only'), True))
     ok = bool(rets)
     for r in rets:
         v = g.stmt[r].value
         sets = g.find_stmts(lambda s: isinstance(s, ast.Assign) and isinstance(v, ast.Name) and unparse(s.targets[0]) == v.id + '.image_opts' and
-                            unparse(s.value) == 'self.tile_manager.image_opts')
+                            same(s.value, 'self.tile_manager.image_opts'))
         ok = ok and isinstance(v, ast.Name) and bool(sets) and all(g.dominates(s, r) for s in sets)
     ctx.check(ok, 'CacheMapLayer._image:tile-carries-cache-options', 'a cached tile returned unmerged (tiled_only) gets the image options of its cache', im,
               fail='a tile handed on unmerged does not carry the image options of its cache: backends that load tiles without options lose the '
